@@ -304,7 +304,31 @@ def r3_best_batch(ctx: Context) -> None:
                 outer, inner = lp, sub
     if inner is None or not isinstance(inner.target, ast.Name) or not isinstance(outer.target, ast.Name):
         raise AnalysisError(f"{sb.loc(sb.node)}: best-batch no longer has the row loop / shocked-coordinate loop structure; cannot decide R3")
-    ix, row = inner.target.id, outer.target.id
+    ix = inner.target.id
+    # the rows being shocked: `for row in X`, or `for r in range(E): row = X[r]` with E the number of rows of X (the size of the parent-index draw)
+    row = outer.target.id
+    rows_ok, rows_msg = isinstance(outer.iter, ast.Name), f"outer loop iterates `{src(outer.iter)}`"
+    if isinstance(outer.iter, ast.Call) and isinstance(outer.iter.func, ast.Name) and outer.iter.func.id == "range" and len(outer.iter.args) == 1 and not outer.iter.keywords:
+        first = outer.body[0] if outer.body else None
+        tg = first.targets[0] if isinstance(first, ast.Assign) and len(first.targets) == 1 else first.target if isinstance(first, ast.AnnAssign) else None
+        val = getattr(first, "value", None)
+        if isinstance(tg, ast.Name) and isinstance(val, ast.Subscript) and isinstance(val.value, ast.Name) and isinstance(val.slice, ast.Name) and val.slice.id == outer.target.id \
+                and not any(isinstance(x, ast.Name) and x.id == outer.target.id for st_ in outer.body[1:] for x in ast.walk(st_)):
+            size = None
+            if idx_expr is not None:
+                ie_ = env.get(idx_expr.id, idx_expr) if isinstance(idx_expr, ast.Name) else idx_expr
+                size = kwarg(ie_, "size", 2) if isinstance(ie_, ast.Call) else None
+            if size is None:
+                raise AnalysisError(f"{sb.loc(outer)}: rows are visited by position over `{src(outer.iter)}`, and the number of rows of `{src(val.value)}` cannot be read")
+            row = tg.id
+            same = str(n.rat(outer.iter.args[0])) in (str(n.rat(size)), str(n.rat(parse_expr(f"({src(size)},)[0]"))))
+            rows_ok, rows_msg = same, f"rows 0..{src(outer.iter.args[0])} of `{src(val.value)}` are shocked, which has {src(size)} rows"
+        else:
+            raise AnalysisError(f"{sb.loc(outer)}: cannot read which rows the loop over `{src(outer.iter)}` shocks")
+    elif not isinstance(outer.iter, ast.Name):
+        sl = outer.iter
+        if not (isinstance(sl, ast.Subscript) and isinstance(sl.value, ast.Name)):
+            raise AnalysisError(f"{sb.loc(outer)}: cannot read which rows the loop over `{src(outer.iter)}` shocks")
     # the shocked-coordinate loop must iterate a draw that can be read in place: a repository helper (e.g. a generator of shock records) that could not be
     # inlined hides which coordinates, signs and sizes are drawn - outside this rule's vocabulary
     for c_ in ast.walk(inner.iter):
@@ -324,29 +348,80 @@ def r3_best_batch(ctx: Context) -> None:
     rv_names = [s.targets[0].id for s in walk_scope(sb.node) if isinstance(s, ast.Assign) and isinstance(s.targets[0], ast.Name) and isinstance(s.value, ast.Call) and (dotted(s.value.func) or "").split(".")[-1] == "betabinom"]
     ok = bool(rv_names) and any(isinstance(s, ast.Assign) and src(s.targets[0]) == f"{rv_names[0]}.random_state" and src(s.value) == "self.random_generator" for s in walk_scope(sb.node))
     ctx.check(ok, "R3.shock-count", "BestBatchSampler.sample_batch:rv-generator", "the beta-binomial draws use the sampler's own generator", "the frozen rv does not use self.random_generator", sb, sb.node)
-    # displacement: row[index] += precision[index] * (2*integers(0,2) - 1) * integers(1, perturbation_range)
-    disp = [s for s in ast.walk(inner) if isinstance(s, ast.AugAssign) and isinstance(s.op, ast.Add) and isinstance(s.target, ast.Subscript) and src(s.target.value) == row and src(s.target.slice) == ix]
-    ctx.check(len(disp) == 1, "R3.shift", "BestBatchSampler.sample_batch:one-displacement", "each shocked coordinate is displaced once", f"{len(disp)} displacement statements", sb, inner)
-    if disp:
-        got = n.rat(disp[0].value)
-        want = n.rat(parse_expr(f"search_space.parameters_precision[{ix}] * ((self.random_generator.integers(0, 2) * 2) - 1) * self.random_generator.integers(1, self.perturbation_range)"))
+    # what happens to row[index] in one pass of the coordinate loop, composed statement by statement (locals inlined, names do not matter):
+    #     row[index]  ->  clip(row[index] + precision[index] * (2*integers(0,2) - 1) * integers(1, perturbation_range), lower[index], upper[index])
+    START = "row0__"
+    import copy as _copy
+
+    def subst(e: ast.expr, cur_: ast.expr, loc: dict[str, ast.expr]) -> ast.expr:
+        class _S(ast.NodeTransformer):
+            def visit_Subscript(self, node: ast.Subscript):  # noqa: N802
+                if isinstance(node.ctx, ast.Load) and src(node.value) == row and src(node.slice) == ix:
+                    return _copy.deepcopy(cur_)
+                return self.generic_visit(node)
+
+            def visit_Name(self, node: ast.Name):  # noqa: N802
+                if isinstance(node.ctx, ast.Load) and node.id in loc:
+                    return _copy.deepcopy(loc[node.id])
+                return node
+        return ast.fix_missing_locations(_S().visit(_copy.deepcopy(e)))
+
+    def compose(block: list[ast.stmt], states: list[tuple[ast.expr, dict[str, ast.expr]]]) -> list[tuple[ast.expr, dict[str, ast.expr]]]:
+        for st_ in block:
+            if isinstance(st_, ast.Pass) or (isinstance(st_, ast.Expr) and isinstance(st_.value, ast.Constant)):
+                continue
+            if isinstance(st_, ast.If):
+                out = compose(st_.body, [(c_, dict(l_)) for c_, l_ in states]) + compose(st_.orelse, [(c_, dict(l_)) for c_, l_ in states])
+                if len(out) > 16:
+                    raise AnalysisError(f"{sb.loc(st_)}: more than 16 paths through the shocked-coordinate loop")
+                states = out
+                continue
+            tgt = st_.target if isinstance(st_, (ast.AugAssign, ast.AnnAssign)) else st_.targets[0] if isinstance(st_, ast.Assign) and len(st_.targets) == 1 else None
+            if isinstance(tgt, ast.Name) and isinstance(st_, (ast.Assign, ast.AnnAssign)) and st_.value is not None:
+                states = [(c_, {**l_, tgt.id: subst(st_.value, c_, l_)}) for c_, l_ in states]
+                continue
+            if isinstance(tgt, ast.Name) and isinstance(st_, ast.AugAssign) and all(tgt.id in l_ for _, l_ in states):
+                states = [(c_, {**l_, tgt.id: ast.BinOp(left=_copy.deepcopy(l_[tgt.id]), op=st_.op, right=subst(st_.value, c_, l_))}) for c_, l_ in states]
+                continue
+            if not (isinstance(tgt, ast.Subscript) and src(tgt.value) == row and src(tgt.slice) == ix):
+                raise AnalysisError(f"{sb.loc(st_)}: `{src(st_)[:70]}` in the shocked-coordinate loop is not a local binding nor an update of `{row}[{ix}]`; cannot decide R3")
+            if isinstance(st_, ast.AugAssign):
+                if not isinstance(st_.op, (ast.Add, ast.Sub, ast.Mult, ast.Div)):
+                    raise AnalysisError(f"{sb.loc(st_)}: cannot read the update `{src(st_)[:70]}`")
+                states = [(ast.BinOp(left=c_, op=st_.op, right=subst(st_.value, c_, l_)), l_) for c_, l_ in states]
+            else:
+                states = [(subst(st_.value, c_, l_), l_) for c_, l_ in states]
+        return states
+    finals = compose(inner.body, [(ast.Name(id=START, ctx=ast.Load()), {})])
+    lo_w, hi_w = f"search_space.parameters_bounds[0][{ix}]", f"search_space.parameters_bounds[1][{ix}]"
+    shift_w = f"search_space.parameters_precision[{ix}] * ((self.random_generator.integers(0, 2) * 2) - 1) * self.random_generator.integers(1, self.perturbation_range)"
+    for final, _loc in finals:
+        final = ast.fix_missing_locations(final)
+        is_clip = isinstance(final, ast.Call) and (dotted(final.func) or "").split(".")[-1] == "clip" and (dotted(final.func) or "").split(".")[0] in ("np", "numpy")
+        if not is_clip:
+            ctx.check(False, "R3.confine", "BestBatchSampler.sample_batch:clip", "the shocked coordinate is confined to [lower[index], upper[index]]",
+                      f"the shocked coordinate ends as `{src(final)[:120]}`: not clipped to its own bounds", sb, inner)
+            moved = final
+        else:
+            cargs = [kwarg(final, "a", 0), kwarg(final, "a_min", 1) or kwarg(final, "min", 1), kwarg(final, "a_max", 2) or kwarg(final, "max", 2)]
+            if any(x is None for x in cargs) or len(final.args) + len(final.keywords) != 3:
+                raise AnalysisError(f"{sb.loc(inner)}: cannot read the arguments of `{src(final)[:80]}`")
+            ok_c = str(n.rat(cargs[1])) == str(n.rat(parse_expr(lo_w))) and str(n.rat(cargs[2])) == str(n.rat(parse_expr(hi_w)))
+            ctx.check(ok_c, "R3.confine", "BestBatchSampler.sample_batch:clip", "the shocked coordinate is confined to [lower[index], upper[index]]",
+                      f"the shocked coordinate is clipped to [`{src(cargs[1])}`, `{src(cargs[2])}`], not to its own bounds", sb, inner)
+            moved = cargs[0]
+        got = n.rat(moved) - n.rat(ast.Name(id=START, ctx=ast.Load()))
+        txt = str(got)
+        import re as _re
+        if _re.search(r"[A-Za-z_][\w.]*\([^()]*" + START, txt):
+            raise AnalysisError(f"{sb.loc(inner)}: the shocked coordinate becomes `{src(moved)[:120]}`: the old value sits inside a call the normal form does not open; cannot decide R3")
+        want = n.rat(parse_expr(shift_w))
+        ctx.check(not got.equals(n.rat(parse_expr("0"))), "R3.shift", "BestBatchSampler.sample_batch:one-displacement", "each shocked coordinate is displaced",
+                  "the shocked coordinate is not displaced at all", sb, inner)
         ctx.check(got.equals(want), "R3.shift", "BestBatchSampler.sample_batch:shift",
                   "coordinate `index` moves by precision[index] * sign * size with sign = 2*integers(0,2)-1 in {-1,+1} and size = integers(1, perturbation_range) in 1..range-1",
-                  f"the displacement is `{str(got)[:260]}`", sb, disp[0])
-    clips = [s for s in ast.walk(inner) if isinstance(s, ast.Assign) and isinstance(s.targets[0], ast.Subscript) and src(s.targets[0].value) == row and src(s.targets[0].slice) == ix
-             and isinstance(s.value, ast.Call) and (dotted(s.value.func) or "").endswith("clip")]
-    clip_ok = False
-    for s in clips:
-        # positional or by keyword (a, a_min, a_max), bounds possibly held in locals hoisted out of the loop: compared as normal forms
-        cargs = [kwarg(s.value, "a", 0), kwarg(s.value, "a_min", 1) or kwarg(s.value, "min", 1), kwarg(s.value, "a_max", 2) or kwarg(s.value, "max", 2)]
-        if any(x is None for x in cargs):
-            continue
-        want_c = [f"{row}[{ix}]", f"search_space.parameters_bounds[0][{ix}]", f"search_space.parameters_bounds[1][{ix}]"]
-        clip_ok = all(str(n.rat(x)) == str(n.rat(parse_expr(w))) for x, w in zip(cargs, want_c)) and len(s.value.args) + len(s.value.keywords) == 3
-    ctx.check(clip_ok, "R3.confine", "BestBatchSampler.sample_batch:clip", "the shocked coordinate is confined to [lower[index], upper[index]]",
-              "the shocked coordinate is not clipped to its own bounds", sb, inner)
-    # the rows being shocked are the copies of the parents
-    ctx.check(isinstance(outer.iter, ast.Name), "R3.parents", "BestBatchSampler.sample_batch:rows-shocked", "the shocked rows are the selected parents", f"outer loop iterates `{src(outer.iter)}`", sb, outer)
+                  f"on one path through the loop body the coordinate moves by `{txt[:260].replace(START, 'old')}`", sb, inner)
+    ctx.check(rows_ok, "R3.parents", "BestBatchSampler.sample_batch:rows-shocked", "the shocked rows are the selected parents", rows_msg, sb, outer)
 
 
 def _int_draw_interval(n, e: ast.expr) -> tuple[str, str] | None:
